@@ -506,7 +506,9 @@ func (w *world) connectorFactory(typ string, pairs [][2]string) connector.Factor
 
 // ---------------------------------------------------------------- extension
 
-type extConfig struct{ Deps []component.ID }
+type extConfig struct {
+	Deps []component.ID `mapstructure:"deps"`
+}
 
 type vExtension struct {
 	base
